@@ -208,7 +208,7 @@ struct AuthPayload {
 pub const ENTRY_POINTS: &[&str] = &[
     "id_user", "id_room", "id_alias", "id_room_or_alias", "id_event", "id_server", "id_mxc", "id_key", "id_device_key", "id_misc", "id_event_type", "uri_matrix_to", "uri_matrix", "json_timeline", "json_sync_timeline",
     "json_stripped", "json_to_device", "json_account_data", "json_ephemeral", "json_raw", "json_message_content", "json_ruleset", "json_push_condition", "json_canonical", "http_send_message", "http_get_state", "http_get_account_data",
-    "http_join", "http_fed_send_join", "http_fed_transaction", "http_resp_sync", "http_resp_error", "hdr_content_disposition", "hdr_xmatrix", "hdr_retry_after", "push_get_match", "push_flatten", "push_ruleset_edits", "sig_verify_json",
+    "http_join", "http_fed_send_join", "http_fed_transaction", "http_resp_sync", "http_resp_error", "http_resp_fed_media", "hdr_content_disposition", "hdr_xmatrix", "hdr_retry_after", "push_get_match", "push_flatten", "push_ruleset_edits", "sig_verify_json",
     "sig_verify_event", "sig_sign", "sig_hashes_redact", "sig_from_der", "sig_base64", "auth_check", "html_parse", "html_sanitize_strict", "html_sanitize_compat", "html_remove_fallback",
 ];
 
@@ -314,6 +314,7 @@ pub fn call(ep: &str, p: &[u8]) -> String {
         "http_fed_send_join" => req_ep!(p, ruma_federation_api::membership::create_join_event::v2::Request),
         "http_fed_transaction" => req_ep!(p, ruma_federation_api::transactions::send_transaction_message::v1::Request),
         "http_resp_sync" => resp_ep!(p, ruma_client_api::sync::sync_events::v3::Response),
+        "http_resp_fed_media" => resp_ep!(p, ruma_federation_api::authenticated_media::get_content::v1::Response),
         "http_resp_error" => match http_response(p) {
             None => "badpayload".into(),
             Some(r) => {
